@@ -414,6 +414,37 @@ RULES = {
 
 
 DOTALL = ["inner_macro_def", "mismatch_debug", "offered_let"]
+JSON_DOTALL = DOTALL_EXTRA = DOTALL   # (one list; json targets add to it through register_json_rules)
+
+
+def register_json_rules(d, origin):
+    """One reader for the json dialects that four builders introduced independently in round 9 (kept compatible with all of
+    them): `"rules": {name: [regex, replacement, why, count?, "dotall"?]}` (count 0 or null = at least once; a name already
+    defined differently is an error; a regex may also start with `(?s)`), `"rules_dotall": [names]`,
+    `"normalise": {"Impl::fn" | "::fn" | "fn": [rule names]}` (json has no tuple keys; a free function has impl None)."""
+    dot_names = set(d.pop("rules_dotall", None) or [])
+    all_dot = ".b1315." in str(origin)      # b1315's dialect: every rule of a json file is applied with re.S
+    for rn, rv in (d.pop("rules", None) or {}).items():
+        rv = list(rv)
+        dot = "dotall" in rv[3:] or rn in dot_names or all_dot
+        rv = [x for x in rv if x != "dotall"]
+        if len(rv) > 3 and rv[3] == 0: rv[3] = None
+        rv = tuple(rv)
+        if rn in RULES and tuple(RULES[rn]) != rv:
+            raise ExtractError("x_fn: %s: normalisation rule %r is already defined differently" % (origin, rn))
+        RULES[rn] = rv
+        if dot and rn not in DOTALL: DOTALL.append(rn)
+    norm = d.get("normalise")
+    if isinstance(norm, dict):
+        out = {}
+        for k, v in norm.items():
+            if isinstance(k, str):
+                impl, _, fn = k.rpartition("::")
+                k = (impl or None, fn)
+            elif isinstance(k, tuple) and k[0] == "":
+                k = (None, k[1])
+            out[k] = list(v)
+        d["normalise"] = out
 
 
 def make_rewriter(rel, plan):
@@ -450,7 +481,7 @@ def make_rewriter(rel, plan):
                 def sub(m):
                     out = m.expand(repl)
                     return out + "\n" * (m.group(0).count("\n") - out.count("\n"))
-                seg, n = re.subn(rx, sub, seg, flags=re.S if rn in DOTALL else 0)
+                seg, n = re.subn(rx, sub, seg, flags=re.S if (rn in DOTALL or rn in DOTALL_EXTRA) else 0)
                 if (want is None and n < 1) or (want is not None and n != want):
                     bad = "normalisation rule %r applies %d times in %s (declared: %s)" % (rn, n, name, want or "at least once"); break
                 log.append(("%s in %s: %s" % (rn, name, RULES[rn][2]), n))
@@ -475,15 +506,7 @@ def load_targets():
     def add(d, origin):
         d = dict(d)
         d["fns"] = [tuple(x) for x in d.get("fns", [])]
-        # (b1012, round 9) normalisation from a json target file: `"rules": {name: [regex, replacement, why, count?]}` are added to
-        # RULES (a name may not be redefined differently), `"normalise": {"Impl::fn" | "::fn": [rule names]}`
-        for rn, r in (d.pop("rules", None) or {}).items():
-            if rn in RULES and tuple(RULES[rn]) != tuple(r):
-                raise ExtractError("x_fn: %s: normalisation rule %s is already defined differently" % (origin, rn))
-            RULES[rn] = tuple(r)
-        if d.get("normalise") and not all(isinstance(k, tuple) for k in d["normalise"]):
-            d["normalise"] = {((k.split("::", 1)[0] or None, k.split("::", 1)[1]) if isinstance(k, str) else k): list(v)
-                              for k, v in d["normalise"].items()}
+        register_json_rules(d, origin)
         if d["area"] not in by:
             d.setdefault("consts", []); d.setdefault("structs", []); d.setdefault("externals", {}); d.setdefault("foreign_structs", {})
             d["consts"], d["structs"] = list(d["consts"]), list(d["structs"])
@@ -503,6 +526,8 @@ def load_targets():
         t["tuple_structs"] += [n for n in d.get("tuple_structs", []) if n not in t["tuple_structs"]]
         t["fns_from"] += [n for n in d.get("fns_from", []) if n not in t["fns_from"]]
         if d.get("normalise"): t.setdefault("normalise", {}).update(d["normalise"])
+        if d.get("views"):
+            t["views"] = (t.get("views") or "") + "\n" + d["views"]
     for t in TARGETS: add(t, "TARGETS")
     for path in sorted(glob.glob(os.path.join(HERE, "fn_targets", "*.json"))):
         try:
@@ -511,22 +536,6 @@ def load_targets():
             raise ExtractError("x_fn: %s: %s" % (path, e))
         for d in (data if isinstance(data, list) else [data]):
             d = dict(d)
-            # (round 9, b04, additive) a target file may bring its own normalisation rules:
-            #   "rules": {name: [regex, replacement, why, count?, "dotall"?]}  (a name already defined differently is an error)
-            #   "normalise": {"Impl::fn": [rule names]}  (JSON has no tuple keys)
-            for rn, rv in (d.pop("rules", None) or {}).items():
-                rv = list(rv)
-                dot = "dotall" in rv[3:]
-                rv = [x for x in rv if x != "dotall"]
-                if len(rv) > 3 and rv[3] == 0: rv[3] = None          # 0 = "at least once"
-                if rn in RULES and tuple(RULES[rn]) != tuple(rv):
-                    raise ExtractError("x_fn: %s: normalisation rule %r is already defined" % (path, rn))
-                RULES[rn] = tuple(rv)
-                if dot and rn not in DOTALL: DOTALL.append(rn)
-            if isinstance(d.get("normalise"), dict):
-                # key (impl or None, fn) — the same reading as the blocks of b1012 (in `add`) and b0103 (`_json_plan`): "::fn" = free function
-                d["normalise"] = {(((k.rpartition("::")[0] or None), k.rpartition("::")[2]) if isinstance(k, str) else k): list(v)
-                                  for k, v in d["normalise"].items()}
             add(d, os.path.basename(path))
     return tgs
 
@@ -538,14 +547,8 @@ def _json_plan(tg):
     """json form of a target block (round 9, b0103): `"normalise": {"Impl::fn": [rule names]}`, `"rules": {name: [regex,
     replacement, what is trusted, count?]}` (a regex that must see several lines starts with `(?s)`; a rule name must not
     clash with a rule of RULES unless it is the same rule), `"arms"`: see translate/fn_arms.py"""
-    for rn, r in (tg.get("rules") or {}).items():
-        r = tuple(r)
-        if rn in RULES and tuple(RULES[rn]) != r:
-            raise ExtractError("x_fn: area %s: normalisation rule %r is already defined differently" % (tg["area"], rn))
-        RULES[rn] = r
+    register_json_rules(tg, "area %s" % tg["area"])
     norm = tg.get("normalise")
-    if norm:
-        norm = {(((k.rpartition("::")[0] or None), k.rpartition("::")[2]) if isinstance(k, str) else k): v for k, v in norm.items()}
     return norm
 
 
@@ -559,6 +562,7 @@ def unit_for(repo, tg):
              rewrite=fn_arms.compose(fn_arms.make_arm_splitter(tg["rel"], tg["arms"]) if tg.get("arms") else None,
                                      make_rewriter(tg["rel"], norm) if norm else None))
     u.log_macros = tuple(tg.get("log_macros", ()))     # declared logging-only macros of the file
+    u.reindent_closures = bool(tg.get("reindent_closures"))    # (b0809) see emit_m in rs2lean.py
     return u
 
 
